@@ -138,6 +138,8 @@ def app_message(seed, side, k, law="small", charset="ascii"):
         n = r.randint(0, 12)
     elif law == "medium":
         n = r.randint(0, 300)
+    elif law == "huge":  # some frames exceed asyncio's default 64 KiB write high-water mark
+        n = r.choice([0, 40, 3000, 70_000, 70_000, 140_000])
     else:  # big: some frames exceed the 4096-byte read size
         n = r.choice([0, 5, 40, 300, 2000, 5000, 9000])
     if n:
